@@ -693,6 +693,19 @@ def types_zoo(rng, name, nmsgs=6):
             m.field("fwd", P + f".Zoo{min(nmsgs - 1, i + 1)}")   # forward (or self) reference
             tags.add("forward-ref")
         msgs.append(P + f".Zoo{i}")
+    if rng.random() < 0.7:
+        # a target file whose only use of another file's types (a sibling target file, a dependency file) is as map values
+        f3 = File(f"{dirp}/map_only.proto", pkg, deps=["google/protobuf/timestamp.proto", "google/type/latlng.proto", f2.pb.name])
+        api.add(f3)
+        mo = f3.message("MapOnly")
+        mo.field("title", "string")
+        mo.map("shared_by_key", "string", P + ".Shared")
+        mo.map("colors", "int32", enums[0])
+        mo.map("times", "string", ".google.protobuf.Timestamp")
+        inner = mo.nested("Cell")
+        inner.map("places", "uint64", ".google.type.LatLng")
+        mo.field("cell", P + ".MapOnly.Cell")
+        tags.add("other-file-types-only-as-map-values")
     s = f.service("Zoo", host=f"{name}.googleapis.com")
     s.rpc("Echo", P + ".AllScalars", P + ".AllScalars")
     api.info.update(pkg=pkg, version=ver, ns=["vp"], name=name, host=f"{name}.googleapis.com")
@@ -1015,6 +1028,12 @@ def flat_api(rng, name):
     sub.field("leaf", P + ".Leaf")
     sub.field("kinds", "string", repeated=True)
     sub.field("deep", P + ".Sub.Deep")
+    # dotted signatures ending in a map / list / enum / well-known type; the request has top-level fields of the same leaf names
+    sub.map("labels", "string", "string")
+    sub.map("by_num", "int32", P + ".Leaf")
+    sub.field("leaves", P + ".Leaf", repeated=True)
+    sub.field("color", color)
+    sub.field("when", ".google.protobuf.Timestamp")
     deep = sub.nested("Deep")
     deep.field("code", "uint32")
     deep.field("label", "string")
@@ -1050,9 +1069,16 @@ def flat_api(rng, name):
         [["extra_struct", "ttl"]],
         [["wrapped_num", "wrapped_text", "values_list"]],
         [["anything", "name"]],
+        [["sub.labels", "name"]],
+        [["sub.leaves", "sub.deep.label"]],
+        [["sub.by_num"], ["sub.color", "sub.when"]],
     ]
+    dotted_containers = sig_sets[-3:]
     rng.shuffle(sig_sets)
-    for i, sigs in enumerate(sig_sets[:rng.randint(8, 12)]):
+    chosen = sig_sets[:rng.randint(8, 12)]
+    if not any(x in chosen for x in dotted_containers):
+        chosen.append(rng.choice(dotted_containers))
+    for i, sigs in enumerate(chosen):
         q = f.message(f"Req{i}")
         for n, t in pools["scalar"]:
             q.field(n, t)
@@ -1396,7 +1422,11 @@ def retry_api(rng, name):
     # entry 2: timeout only (fractional)
     cfg.append({"name": [{"service": A, "method": pool[2]}], "timeout": f"{timeouts[1]}.5s"})
     # entry 3: retry only (no timeout)
-    cfg.append({"name": [{"service": A, "method": pool[3]}], "retryPolicy": policy()})
+    slow = policy()
+    if rng.random() < 0.7:
+        # backoffs large enough for a run of retryable failures to last several (virtual) minutes
+        slow.update(maxBackoff=rng.choice(["30s", "60s", "45.5s"]), backoffMultiplier=rng.choice([2, 2.5, 3]), initialBackoff=rng.choice(["1s", "2s", "1.25s"]))
+    cfg.append({"name": [{"service": A, "method": pool[3]}], "retryPolicy": slow})
     # entry 4: nanosecond-suffixed timeout + retry, names a method of Beta with the same name as one of Alpha
     cfg.append({"name": [{"service": B, "method": "Get"}], "timeout": f"{timeouts[2]}.000000000s", "retryPolicy": policy()})
     # entry 5: a later duplicate for pool[0] with different values must lose to entry 1
@@ -1415,7 +1445,7 @@ def retry_api(rng, name):
     return api
 
 
-C12_POSITIONS = ["field", "flat", "flat_dotted", "path", "path_dotted", "body", "query", "routing", "routing_nested", "rpc", "file"]
+C12_POSITIONS = ["field", "flat", "flat_dotted", "path", "path_dotted", "body", "query", "query_required", "routing", "routing_nested", "rpc", "file"]
 
 
 def reserved_api(name, words, position):
@@ -1463,6 +1493,8 @@ def reserved_api(name, words, position):
         q.field("anchor", "string", number=1)
         if position == "body":
             q.field(w, P + f".Inner{i}", number=7)
+        elif position == "query_required":
+            q.field(w, "string", number=7, required=True)
         else:
             q.field(w, "string", number=7)
         q.field("inner", P + f".Inner{i}", number=4)
@@ -1482,6 +1514,8 @@ def reserved_api(name, words, position):
             kw = dict(http={"post": f"/v1/{{anchor=anchors/*}}:b{i}"}, body=w)
         elif position == "query":
             kw = dict(http={"get": f"/v1/{{anchor=anchors/*}}:q{i}"})
+        elif position == "query_required":
+            kw = dict(http={"get": f"/v1/{{anchor=anchors/*}}:qr{i}"})
         elif position == "routing":
             kw = dict(http={"post": f"/v1/{{anchor=anchors/*}}:r{i}"}, body="*", routing=[(w, "")])
         elif position == "routing_nested":
